@@ -199,10 +199,13 @@ class Generator:
                 return (str(n).zfill(w) if r.random() < 0.5 else str(n)) if w else ''
             if use and use['consts']:
                 # round robin over the compared constants and "anything else": every branch is reached within a few payloads
-                fit = sorted(c for c in use['consts'] if len(c) <= w and c == c.strip()) + [None]
+                fit = sorted(c for c in use['consts'] if len(c) <= w and c == c.strip())
                 tally = self.picked.setdefault(f['id'], {})
-                least = min(tally.get(c, 0) for c in fit)
-                c = r.choice([c for c in fit if tally.get(c, 0) == least]) if r.random() < 0.85 else r.choice(fit)
+                if not fit or r.random() < max(0.25, 1.0 / (len(fit) + 1)):
+                    c = None
+                else:
+                    least = min(tally.get(c, 0) for c in fit)
+                    c = r.choice([c for c in fit if tally.get(c, 0) == least]) if r.random() < 0.85 else r.choice(fit)
                 tally[c] = tally.get(c, 0) + 1
                 return self.text(w, avoid=use['consts']) if c is None else c
             return self.text(w)
@@ -213,16 +216,13 @@ class Generator:
                 return struct.pack('>f', v)
             self.kinds['binary'] = self.kinds.get('binary', 0) + 1
             if use and use['masks']:
+                # bits of the tested masks at a density chosen per field value: all clear, sparse, half, dense, all set
+                p = r.choice([0.0, 0.15, 0.5, 0.5, 0.85, 1.0])
                 v = 0
                 for m in use['masks']:
-                    if r.random() < 0.5:
-                        bits = [1 << i for i in range(m.bit_length()) if m >> i & 1]
-                        v |= r.choice(bits)
-                if r.random() < 0.3:
-                    v |= r.getrandbits(8 * w) if w else 0
-                    for m in use['masks']:
-                        if r.random() < 0.5:
-                            v &= ~m
+                    for i in range(m.bit_length()):
+                        if m >> i & 1 and r.random() < p:
+                            v |= 1 << i
                 return (v & ((1 << (8 * w)) - 1)).to_bytes(w, 'big') if w else b''
             if use and 'be' in use['read'] and w:
                 return self.driver_value(256 ** w - 1 if w < 3 else 10 ** 6).to_bytes(w, 'big') if r.random() < 0.5 else \
@@ -625,7 +625,7 @@ class Session:
         for name in sorted(self.tres):
             t = self.tres[name]
             g = Generator(name, t['tree'], self.rng)
-            n_lo, n_hi = (nmin * 4, nmax * 4) if name in widened else (nmin, nmax)
+            n_lo, n_hi = (nmin * 4, nmax * 4) if name in widened else (nmin, max(nmax, min(40, nmin + 2 * len(g.loops) + len(g.conds) // 8)))
             k = 0
             while k < n_lo or (k < n_hi and g.uncovered()):
                 k += 1
